@@ -76,7 +76,13 @@ ATOMS = {
     "T.noop": (lambda: TagQuery().noop(), lambda p: True),
     "F.noop": (lambda: FieldQuery().noop(), lambda p: True),
     "T.map": (lambda: TagQuery().map(len).test(lambda n: n == 1), lambda p: len(p.tags) == 1),
+    # a key taken AFTER a map step whose function needs the whole tag set: only a scan of the points can answer it
+    "T.mapkey": (lambda: TagQuery().map(_rekey).z == "xx", lambda p: ((p.tags.get("a") or "") + (p.tags.get("b") or "")) == "xx"),
 }
+
+
+def _rekey(tags):
+    return {"z": (tags.get("a") or "") + (tags.get("b") or "")}
 
 
 def parse_query(expr):
@@ -493,7 +499,7 @@ class Run:
 
 
 QUERIES = ["Ta==x", "Ta!=x", "Tb<y", "Tb.exists", "Ta.search", "Fp>0", "Fp==1", "Fq!=2.5", "Fq.exists", "Fp.map", "Fp.test",
-           "M==m0", "M!=m0", "M.test", "M.map", "t<1", "t<=1", "t>1", "t>=2", "t==1", "t!=1", "t.test", "T.noop", "F.noop", "T.map",
+           "M==m0", "M!=m0", "M.test", "M.map", "t<1", "t<=1", "t>1", "t>=2", "t==1", "t!=1", "t.test", "T.noop", "F.noop", "T.map", "T.mapkey",
            ["~", "Ta==x"], ["~", "Fp==1"], ["~", "M==m0"], ["~", "t<=1"],
            ["&", "Ta==x", "Fp>0"], ["|", "Tb.exists", "t>1"], ["&", ["~", "Fp==1"], "M==m0"], ["|", ["~", "Ta==x"], ["~", "Fq.exists"]],
            ["~", ["&", "Ta==x", "t<=1"]], ["&", "T.noop", "Fp>0"]]
